@@ -5,6 +5,7 @@
    suppress_warnings, [slug_hash] = true is the code after the fix: commit. *)
 From Coq Require Import List NArith Bool.
 From MV Require Import Base.PyStr Base.Res Refs.RUtil Refs.Anchors Refs.AnchorsProofs Refs.AnchorsSphinx.
+From MV Require Import Refs.AnchorsOps Gen.AnchorsSrc Refs.AnchorsSrcProofs.
 From MV Require XRef.XRefModel.
 Import ListNotations.
 Open Scope N_scope.
@@ -157,6 +158,55 @@ Theorem C09_implicit_text_before_fix_refuted :
     o_fill (resolve_one nl false false false [] slugs r) = None.
 Proof. exact slug_empty_title_before_fix. Qed.
 Print Assumptions C09_implicit_text_before_fix_refuted.
+
+(* ---- the same statements for the code as it is in the source now ----------------------------------
+   [apply_src] is the Gallina definition that gen/c09_src.py REGENERATES from ResolveAnchorIds.apply on every
+   run (Gen/AnchorsSrc.v: the explicit-table loop with its skips and exceptions, the per-reference chain
+   explicit -> slugs -> Sphinx pending_xref / docutils warning, the text filling; domain mapping =
+   Refs/AnchorsOps.v); Refs/AnchorsSrcProofs.v proves it equal to the model.  An edit of the method changes
+   Gen/AnchorsSrc.v and these are re-checked against it. *)
+Theorem C09_apply_src_is_apply : forall nl sphinx suppressed rg slugs refs,
+  apply_src nl sphinx suppressed rg slugs refs = apply nl sphinx suppressed true false rg slugs refs.
+Proof. exact apply_src_eq. Qed.
+Print Assumptions C09_apply_src_is_apply.
+
+Theorem C09_resolution_order_src : forall nl sphinx suppressed rg slugs refs outs,
+  apply_src nl sphinx suppressed rg slugs refs = Ok outs ->
+  exists ex, build_explicit false rg = Ok ex /\
+    Forall2 (fun r o =>
+      (forall lid title, dget ex (r_frag r) = Some (lid, title) ->
+         o_refid o = Some lid /\ o_warn o = [] /\ o_pending o = false /\ o_msg o = false) /\
+      (forall line sid title, dget ex (r_frag r) = None -> dget slugs (r_frag r) = Some (line, sid, title) ->
+         o_refid o = Some sid /\ o_warn o = [] /\ o_pending o = false /\ o_msg o = false)) refs outs.
+Proof. exact resolution_order_src. Qed.
+Print Assumptions C09_resolution_order_src.
+
+Theorem C09_missing_warns_once_src : forall nl rg slugs refs outs,
+  apply_src nl false false rg slugs refs = Ok outs ->
+  exists ex, build_explicit false rg = Ok ex /\
+    Forall2 (fun r o =>
+      dget ex (r_frag r) = None -> dget slugs (r_frag r) = None ->
+      o_warn o = [{| w_line := r_line r; w_target := r_frag r |}] /\
+      o_refid o = Some (nl (r_frag r)) /\ o_fill o = None /\ o_msg o = true /\ o_pending o = false) refs outs /\
+    warnings_of outs =
+      map (fun r => {| w_line := r_line r; w_target := r_frag r |})
+          (filter (fun r => negb (dmem ex (r_frag r)) && negb (dmem slugs (r_frag r)) && negb false && negb false) refs).
+Proof. exact missing_warns_once_src. Qed.
+Print Assumptions C09_missing_warns_once_src.
+
+Theorem C09_implicit_text_src : forall nl sphinx suppressed rg slugs refs outs,
+  apply_src nl sphinx suppressed rg slugs refs = Ok outs ->
+  exists ex, build_explicit false rg = Ok ex /\
+    Forall2 (fun r o => r_has_text r = false ->
+      (forall lid title, dget ex (r_frag r) = Some (lid, title) ->
+         o_fill o = Some (match title with
+                          | Some t => if nonempty t then t else s_hash ++ r_frag r
+                          | None => s_hash ++ r_frag r
+                          end)) /\
+      (forall line sid title, dget ex (r_frag r) = None -> dget slugs (r_frag r) = Some (line, sid, title) ->
+         o_fill o = Some (if nonempty title then title else s_hash ++ r_frag r))) refs outs.
+Proof. exact implicit_text_src. Qed.
+Print Assumptions C09_implicit_text_src.
 
 (* non-vacuity: 'a' is both an explicit target (a paragraph, no title) and a heading slug;
    'b' only a slug; 'c' missing.  Explicit wins, the slug fills its title, 'c' warns at line 7 *)
